@@ -430,7 +430,7 @@ class SymKit(KitBase):
                 r = replacement(*[unwrap(a) for a in args], **{k: unwrap(v) for k, v in kwargs.items()})
                 if r is DECLINE:
                     return _MISSING              # this call is executed for real (e.g. the outermost call of a recursive function)
-                return wrap(r)
+                return I.lift(wrap(r))
             return _MISSING
         self.I.call_hooks.append(hook)
         try:
